@@ -45,6 +45,18 @@ CLAIMS = {
         'note': NOTE_COMMON + ' WFQ theorems are over exact rationals (float64 rounding not modelled in the theorems; identical for power-of-two weights).',
         'technique': 'Lean 4 proof (invariants + potential functions, induction over op lists) + model/implementation differential replay',
     },
+    'C11': {
+        'text': 'Reassembly-queue part of C11 (statement (a) and the entry limit) proved in Lean on the L0 model of reassemblyQueue for ALL operation lists '
+                '(arbitrary chunks of both kinds, reads with any buffer size, the four forward handlers): nBytes = sum of len(userData) over all containers '
+                '(so the clamp in subtractNumBytes is dead), the four limited entry counts stay <= maxEntries, limit errors reject without counting. '
+                'The model is tied to reassembly_queue.go by differential replay (honest sender/network and hostile peer generators); the predicate '
+                'getNumBytes() == white-box walk of the real containers is evaluated on the implementation after every operation. '
+                'Statements (b)-(d) (a_rwnd formula over streams, window admission, zero-window rule) belong to the Receiver model and are NOT covered yet.',
+        'note': NOTE_COMMON + ' Hypothesis of C11_counter_exact: fewer than 2^63 user bytes ever pushed (uint64 counter read through int()). '
+                'Go sort.Slice is modelled as its insertion sort (exact for <= 12 elements or totally ordered keys); the hostile generator keeps sorted slices <= 12. '
+                'orderedMIDMap is modelled as the same objects as orderedMID; the harness checks that bijection white-box on every step.',
+        'technique': 'Lean 4 proof (invariant + induction over arbitrary op lists) + model/implementation differential replay + executable predicate on implementation outputs',
+    },
 }
 
 E2E_NOTE = ('Evidence level is EXPLORATION until the system-level theorems (DESIGN §5, NetSys) are closed: real association pairs under testing/synctest virtual time '
@@ -58,7 +70,6 @@ def _e2e(text):
 
 
 CLAIMS.update({
-    'C01': _e2e('Per stream, the read history of ordered reliable streams must be a prefix of (and after healing equal to) the accepted-write history, over seeded workloads x fault schedules x modes x initial TSNs (incl. next to 2^32).'),
     'C02': _e2e('After the fault prefix ends every reliable message is read and both sides report zero buffered/pending/in-flight bytes within heal + 600 s of virtual time (blackouts > 60 s, zero-window readers, 40 % loss, reordering).'),
     'C04': _e2e('Handshake scenarios: 16 option combinations x 3 role assignments (client/server, both clients, out-of-band tokens) x up to 3 faults on the first 8 packets x start order; negotiated metadata against the truth table; stale handshake packets replayed after establishment; silent peer (bounded failure, 1+maxInitRetrans INITs); waiting server returns on transport close.'),
     'C06': _e2e('Unordered / partially reliable streams: reads must match distinct written messages (subsequence for ordered), DCEP always delivered in order.'),
@@ -69,6 +80,21 @@ CLAIMS.update({
     'C14': _e2e('Stream close by the writer then by the reader, re-open of the same identifier for up to 3 incarnations, several streams at once, under loss/duplication/reordering of DATA and RECONFIG: all messages then EOF per incarnation.'),
     'C15': _e2e('Direct-drive: per-stream buffered amount = accepted writes - newly acknowledged bytes after every op (gap-ack then cumulative ack, T3, invalid/stale SACKs), association figure = pending + in-flight, callback count = downward crossings, callback can take both locks.'),
     'C18': _e2e('API-contract programs: oversize / empty / closed-stream writes, blocking writes with deadlines, short read buffers (message stays available), read deadlines expiring with no data; rejected calls are invisible in the peer read history; blocking-write gate checked white-box.'),
+})
+
+CLAIMS.update({
+    'C01': {
+        'text': 'SYSTEM LEVEL (exploration, synctest e2e): per stream the read history must be a prefix of, and after healing equal to, the accepted-write history over seeded workloads x fault schedules x modes x initial TSNs. COMPONENT LEVEL ONLY (reassembly queue). Proved in Lean on the L0 model of reassemblyQueue, for ordered DATA (SSN, TSN-contiguity) and ordered I-DATA (MID/FSN): '
+                'for every message list (any sizes, any count, any initial TSN incl. the 2^32 wrap), fragments pushed in ANY order, each at most once, interleaved arbitrarily with reads of '
+                'ANY buffer size and under any entry limit, the successful reads (PPI, bytes) form a PREFIX of the written messages; isComplete is characterised (complete iff exactly all '
+                'fragments of one message). Hypothesis forced by the 16/32-bit sequence space: the pushed fragment belongs to a message fewer than 2^15 (SSN) / 2^31 (MID) ahead of the reader. '
+                'The model is tied to reassembly_queue.go by differential replay; the executable predicate (every read = one written message, at most once, in order, gap-free without forwards, '
+                'all returned after draining) is evaluated on the implementation outputs with generator ground truth. '
+                'NOT covered yet: packetize/TSN assignment (C01_packetize_wf, C01_tsn_assignment), duplicate filtering (C01_dedup, C05), wire content, and the end-to-end NetSys invariant (C01_netsys_prefix).',
+        'note': NOTE_COMMON + ' Known finding D15: nothing in the association enforces the 2^15 hypothesis for DATA (a_rwnd counts user bytes only, entry cap off by default): '
+                'an application that lags 32769 small ordered messages behind loses acknowledged messages and later stalls (witness replayed on every run; e2e witness in corpus/C01).',
+        'technique': 'Lean 4 proof (refinement of the queue to a table of messages, induction over arbitrary honest runs) + model/implementation differential replay + executable predicate on implementation outputs',
+    },
 })
 
 _PENDING = 'check not built yet in this round (planned, see DESIGN.md §5/§8); not claimed until its theorems and correspondence run'
